@@ -63,7 +63,7 @@ func init() {
 			return ns
 		},
 		MaxBlocks: 40, MaxAdds: 64, PReorg: 6, PSnapCrash: 0, NetFaults: true})
-	reg(&Profile{Name: "c02", PForged: 15, Property: "C02", Oracles: []string{"roots", "prove"},
+	reg(&Profile{Name: "c02", PrefixSharePct: 6, PForged: 15, Property: "C02", Oracles: []string{"roots", "prove"},
 		Nodes:     func(r *Rng) []NodeCfg { return allForests(r) },
 		MaxBlocks: 30, MaxAdds: 48, PReorg: 8, PSnapCrash: 4, PCacheOps: 6, NetFaults: true})
 	reg(&Profile{Name: "c05", PForged: 15, Property: "C05", Oracles: []string{"roots"},
@@ -104,7 +104,7 @@ func init() {
 			return ns
 		},
 		MaxBlocks: 30, MaxAdds: 40, PReorg: 15, PCacheOps: 40, NetFaults: true})
-	reg(&Profile{Name: "c10", PForged: 20, Property: "C10", Oracles: []string{"roots", "lookup"},
+	reg(&Profile{Name: "c10", PrefixSharePct: 6, PForged: 20, Property: "C10", Oracles: []string{"roots", "lookup"},
 		Nodes: func(r *Rng) []NodeCfg {
 			return []NodeCfg{{Kind: "pollard"}, {Kind: "mapfull", TotalRows: -1, DetMaps: r.Bool()}, {Kind: "mapfull", TotalRows: 0},
 				mapNode("mapfull", r), {Kind: "mappartial", TotalRows: -1}, mapNode("mappartial", r), {Kind: "mappartial", TotalRows: -1, Big: bigOffset(r)}}
